@@ -198,6 +198,9 @@ def main(argv):
     shutil.rmtree(rundir, ignore_errors=True)
     os.makedirs(rundir)
     os.makedirs(os.path.join(ROOT, "replay"), exist_ok=True)
+    if not replay:
+        for f in glob.glob(os.path.join(ROOT, "replay", pid + "_*.json")):
+            os.remove(f)
     os.makedirs(os.path.join(ROOT, "evidence"), exist_ok=True)
 
     violations = []   # dicts: {kind, sig, what, replay}
